@@ -1199,6 +1199,27 @@ def _iv_comp(a, pre):
 
 
 # ---------------------------------------------------------------- C12 / C16
+import contextlib
+
+
+@contextlib.contextmanager
+def week_config(p, cfg, order="se"):
+    """the process-wide week configuration, set through the public setters in the given order ('se': start then
+    end, 'es': end then start, 's' / 'e': only that setter, the other bound keeps the default) and restored after"""
+    if cfg is not None:
+        for c in order:
+            if c == "s":
+                p.week_starts_at(p.WeekDay(cfg["ws"]))
+            else:
+                p.week_ends_at(p.WeekDay(cfg["we"]))
+    try:
+        yield
+    finally:
+        p.week_ends_at(p.WeekDay.SUNDAY)
+        p.week_starts_at(p.WeekDay.MONDAY)
+        p.week_ends_at(p.WeekDay.SUNDAY)
+
+
 def _wdarg(wd):
     return None if wd == -1 else P().WeekDay(wd)
 
@@ -1215,42 +1236,42 @@ def _end_of(a, pre):
 
 def _modifier(name, a, pre):
     p = P()
-    cfg = a["cfg"]
-    p.week_starts_at(p.WeekDay(cfg["ws"]))
-    p.week_ends_at(p.WeekDay(cfg["we"]))
-    try:
+    with week_config(p, a["cfg"], a.get("order", "se")):
         return getattr(pre[0], name)(a["unit"])
-    finally:
-        p.week_starts_at(p.WeekDay.MONDAY)
-        p.week_ends_at(p.WeekDay.SUNDAY)
 
 
+# weekday navigation does not depend on the week configuration: a["wcfg"], when given, is in force during the call
 @op("next")
 def _next(a, pre):
     x = pre[0]
-    if isinstance(x, _dt.datetime):
-        return x.next(_wdarg(a["wd"]), keep_time=a["keep"]) if a["keep"] or a["wd"] != -1 else x.next()
-    return x.next(_wdarg(a["wd"]))
+    with week_config(P(), a.get("wcfg")):
+        if isinstance(x, _dt.datetime):
+            return x.next(_wdarg(a["wd"]), keep_time=a["keep"]) if a["keep"] or a["wd"] != -1 else x.next()
+        return x.next(_wdarg(a["wd"]))
 
 
 @op("previous")
 def _previous(a, pre):
     x = pre[0]
-    if isinstance(x, _dt.datetime):
-        return x.previous(_wdarg(a["wd"]), keep_time=a["keep"]) if a["keep"] or a["wd"] != -1 else x.previous()
-    return x.previous(_wdarg(a["wd"]))
+    with week_config(P(), a.get("wcfg")):
+        if isinstance(x, _dt.datetime):
+            return x.previous(_wdarg(a["wd"]), keep_time=a["keep"]) if a["keep"] or a["wd"] != -1 else x.previous()
+        return x.previous(_wdarg(a["wd"]))
 
 
 @op("first_of")
 def _first_of(a, pre):
-    return pre[0].first_of(a["unit"], _wdarg(a["wd"])) if a["wd"] != -1 else pre[0].first_of(a["unit"])
+    with week_config(P(), a.get("wcfg")):
+        return pre[0].first_of(a["unit"], _wdarg(a["wd"])) if a["wd"] != -1 else pre[0].first_of(a["unit"])
 
 
 @op("last_of")
 def _last_of(a, pre):
-    return pre[0].last_of(a["unit"], _wdarg(a["wd"])) if a["wd"] != -1 else pre[0].last_of(a["unit"])
+    with week_config(P(), a.get("wcfg")):
+        return pre[0].last_of(a["unit"], _wdarg(a["wd"])) if a["wd"] != -1 else pre[0].last_of(a["unit"])
 
 
 @op("nth_of")
 def _nth_of(a, pre):
-    return pre[0].nth_of(a["unit"], a["n"], _wdarg(a["wd"]))
+    with week_config(P(), a.get("wcfg")):
+        return pre[0].nth_of(a["unit"], a["n"], _wdarg(a["wd"]))
